@@ -85,6 +85,47 @@ CLAIMED = {
         "counts < 2^53; multi-axis dims are covered by the oracle and by C13's stacking model.",
         "Lean 4 proof (invariant by induction over axes, inclusion-exclusion over an AddCommGroup) + intermediate-state correspondence",
         "DESIGN.md §5 C02"),
+    "C01": (
+        "Lean 4 theorem about the from_array model (counting, caller/library-chosen common incl. absent ones, many-to-one "
+        "mappings, and BOTH construction strategies — per-value where and per-row scan): every cell of the resulting index "
+        "holds the mapped input value (dense abstraction), hence the two strategies are indistinguishable. The final "
+        "to_array step (numpy.full + scatter with the fit_dtype-chosen dtype) is covered by correspondence and the oracle, "
+        "not yet by a theorem (named partial). Tie: from_array results of the real code vs the model (entries, common, "
+        "shape) on exhaustive small arrays x the option grid and on arrays shaped to force the scan strategy; oracle = "
+        "round trip on the real code via explicit dtype, default dtype and a value mapping.",
+        "Trusted: Lean kernel; hand-written from_array/to_array model tied by correspondence; NumPy bincount/unique/where "
+        "are inlined as list functions; the strategy switch is modelled in exact arithmetic (float division in the code). "
+        "One recorded finding (int64 max) in known_findings.json.",
+        "Lean 4 proof (fold invariants over both construction strategies) + option-grid correspondence",
+        "DESIGN.md §5 C01"),
+    "C06": (
+        "Lean 4 refinement theorems to the dense array for the operations proved so far (copy, shift_common with any or "
+        "the library-chosen value, construction from arrays) and their lift to arbitrary finite histories; all other "
+        "operations of the property are modelled statement by statement and tied to the real code after EVERY step of "
+        "generated histories (1..12 operations, all single operations on every small index), with the NumPy reference "
+        "semantics evaluated on the real code as the oracle, operands byte-compared and requested copies checked for "
+        "shared storage. Partial: per-operation refinement lemmas for append/update/filtered/sliced/reindexed/collapsed/"
+        "column_stack are not yet theorems.",
+        "Trusted: Lean kernel; the iindex model is tied by correspondence only for the operations without theorems.",
+        "Lean 4 proof (refinement per operation + induction over histories, partial) + per-step history correspondence",
+        "DESIGN.md §5 C06"),
+    "C07": (
+        "Lean 4: the well-formedness predicate WF as a proposition, its decidable twin wf (evaluated by the harness on every "
+        "real result) proved sound, and preservation of WF by shift_common/copy; for the other operations preservation is "
+        "checked after every step of every history on the real code (validate(True) + range/arity/non-emptiness/dtype "
+        "conditions + abscissae/sparsity) and on the model. Partial as C06.",
+        "Trusted: Lean kernel; correspondence for operations without theorems.",
+        "Lean 4 proof (invariant preservation, partial) + per-step validation on real code and model",
+        "DESIGN.md §5 C07"),
+    "C15": (
+        "Lean 4 theorems: __eq__ model holds iff shape, common and dense content coincide (for well-formed indexes), is "
+        "reflexive/symmetric/transitive, a different common makes indexes unequal; the value shift_common() picks maximises "
+        "the code's counter (partial: that the counter equals the true cell counts is checked by the oracle). Tie: == / != on "
+        "families of indexes reached by different histories vs the model; oracle on the real code: count(common) == max "
+        "after every library-chosen normalisation, != is the negation of == and never raises.",
+        "Trusted: Lean kernel (+ Batteries list permutations); correspondence for the histories producing the indexes.",
+        "Lean 4 proof (canonicity of equality via the dense abstraction; argmax of the counter) + cross-history correspondence",
+        "DESIGN.md §5 C15"),
 }
 PENDING = {}
 
